@@ -4,9 +4,12 @@ import McpModel.Gate.Model
 Driver for E3 `gate`: replays the harness's envelope descriptors on the admission model and evaluates
 the C06 / C02 monitors on the IMPLEMENTATION's observations.
 
+op:   `tr <plain|all|set:<hex,..|->|ge:<hex>|lt:<hex>>`   the server transport of the case (after `reset`):
+      no `ProtocolVersionSupporter`, or one whose `SupportsProtocolVersion` is the given predicate
+obs:  `sv=<v1,v2..|->`   `ServerSession.supportedVersions` after `Server.Connect`
 op:   `msg <s|c> <method> <id|noid> <shape> <meta> tag=<hex> iver=<hex> lvl=<hex> mut=<hex> raw=<hex>`
-obs:  `w=<none|ok|e<code>[:v1,v2..]|multiN|strayN> mw=<methods|-> uh=<handlers|-> st=<tag@ver|->/<0|1>/<level>`
-      or `panic` / `stuck`.
+obs:  `w=<none|ok|e<code>[:v1,v2..]|multiN|strayN> mw=<methods|-> uh=<handlers|-> st=<tag@ver|->/<0|1>/<level> rv=<..|->`
+      (`rv`: protocolVersion of an initialize result / supportedVersions of a discover result) or `panic` / `stuck`.
 
 The monitors are written from the property text (codes as literal numbers, the lifecycle methods
 named explicitly) and read the session state from the implementation's own observations; they do
@@ -39,6 +42,23 @@ def parseMeta (t : String) : Option MetaShape :=
       pure (.ver v caps ci)
     | _ => none
   else none
+
+/-- The transport's `SupportsProtocolVersion` (`none`: unreadable spec). -/
+def parseTr (t : String) : Option (String → Bool) :=
+  if t == "plain" || t == "all" then some (fun _ => true)
+  else if t == "set:-" then some (fun _ => false)
+  else if t.startsWith "set:" then do
+    let vs ← (((t.drop 4).toString).splitOn ",").mapM hexToString
+    pure (fun v => vs.contains v)
+  else if t.startsWith "ge:" then do
+    let x ← hexToString ((t.drop 3).toString)
+    pure (fun v => !decide (v < x))
+  else if t.startsWith "lt:" then do
+    let x ← hexToString ((t.drop 3).toString)
+    pure (fun v => decide (v < x))
+  else none
+
+def showVersions (l : List String) : String := if l.isEmpty then "-" else ",".intercalate l
 
 def kv (k : String) (t : String) : Option String :=
   if t.startsWith (k ++ "=") then hexToString ((t.drop (k.length + 1)).toString) else none
@@ -131,6 +151,10 @@ def fillUH (model : Option String) (impl : Option String) : String :=
 structure Mon where
   prevSt : String := "-/0/"      -- the implementation's session state after the previous envelope
   dead : Bool := false            -- a crash / teardown was already reported in this case
+  /-- an earlier envelope of the case was an `initialize` ANSWERED WITH A RESULT, or carried complete
+  per-request metadata naming a supported version: only then may feature traffic be served. Kept from
+  what went over the wire, independently of what the implementation's session state claims. -/
+  opened : Bool := false
 
 def stInit (st : String) : Bool := !(st.startsWith "-/")
 def stInitd (st : String) : Bool := match st.splitOn "/" with | [_, d, _] => d == "1" | _ => false
@@ -212,8 +236,12 @@ def monitor (mon : Mon) (m : Msg) (impl : String) : Option String :=
         some s!"C06: F4 {m.mname} passed the gate before initialize (answered {w} instead of the not-initialized refusal)"
       else if !new && !prevInit && st != mon.prevSt && m.mname != "initialize" then
         some s!"C06: session state changed before initialize by {m.mname}"
+      else if !new && !mon.opened && (mw != "-" || uh != "-" || (r.hasId && w == "ok")) && !preInitAllowed.contains m.mname then
+        some s!"C06: {m.mname} was served although no initialize has been accepted on this session (every initialize so far was answered with an error, and no request carried valid per-request metadata)"
       else if m.mname == "initialize" && prevInit && w == "ok" then some "C06: second initialize accepted"
       else if m.mname == "initialize" && prevInit && st != mon.prevSt then some "C06: second initialize changed session state"
+      else if m.mname == "initialize" && w != "ok" && st != mon.prevSt then
+        some s!"C06: rejected initialize changed session state (it was answered {w}, not accepted, yet the session state went from {mon.prevSt} to {st})"
       else if m.mname == "notifications/initialized" && (!prevInit || stInitd mon.prevSt) && (uh != "-" || st != mon.prevSt) then
         some "C06: premature or repeated initialized notification accepted (handler ran or state changed)"
       else if m.mname == "ping" && !new && r.hasId && (r.params != .objUndecodable && r.params != .wrongType) && w != "ok" then
@@ -264,6 +292,12 @@ def engine : Engine DState where
     match toks with
     | ["reset"] => ({ pid := d.pid }, { model := "ok" })
     | ["property", p] => ({ d with pid := p }, { model := "ok" })
+    | ["tr", spec] =>
+      match parseTr spec with
+      | none => (d, { model := "bad-op" })
+      | some f =>
+        let tv := transportVersions f
+        ({ d with st := fresh tv }, { model := s!"sv={showVersions tv}" })
     | _ =>
       match parseMsg toks with
       | none => (d, { model := "bad-op" })
@@ -274,12 +308,16 @@ def engine : Engine DState where
         let w := fillW r (showAnswer (answer r o)) (field "w" impl)
         let uh := fillUH (expectedUH m.side r o) (field "uh" impl)
         let stS := if m.side == "s" then showState st' else "-/0/"
-        let model := s!"w={w} mw={mw} uh={uh} st={stS}"
+        let rv := if m.side == "s" then (match resultInfo d.st r o with | some x => (if x == "" then "-" else x) | none => "-") else "-"
+        let model := s!"w={w} mw={mw} uh={uh} st={stS} rv={rv}"
         let viol := forProperty d.pid (monitor d.mon m impl)
         let isObs := (field "st" impl).isSome
         let mon' : Mon :=
           if !isObs then { d.mon with dead := true }
-          else { d.mon with prevSt := (field "st" impl).getD d.mon.prevSt }
+          else
+            let validMeta := m.side == "s" && usesNew r && metaComplete r && supportedProtocolVersions.contains (metaVersion r)
+            let accepted := m.side == "s" && m.mname == "initialize" && field "w" impl == some "ok"
+            { d.mon with prevSt := (field "st" impl).getD d.mon.prevSt, opened := d.mon.opened || validMeta || accepted }
         ({ d with st := st', mon := mon' }, { model := model, violated := viol })
 
 end Gate
